@@ -312,7 +312,7 @@ K({
     "title": "engine_make_solution: <SlgContextOps as AggregateOps>::make_solution against a mock answer stream",
     "crate": "chalk-engine", "tracing_stub": True,
     "complete": False,
-    "bound": {"quick": "every answer stream of length <= 2 over {answer, ambiguous answer, floundered, no-more, quantum-exceeded} (31 streams, exhaustive below the bound); answers carry the empty substitution",
+    "bound": {"quick": "every answer stream of length <= 2 over {answer, ambiguous answer, floundered, no-more, quantum-exceeded} (31 streams, exhaustive below the bound); answers carry the empty substitution; + the stream [answer, no-more] with the one-element substitution [?0 := str]",
               "thorough": "+ every stream of length 3 whose first two items do not end it (45 streams)"},
     "mods": [{"into": AGG, "harness": "chalk_engine/k12_make_solution.rs", "name": "verif_k12"}],
     "targets": [
